@@ -419,6 +419,18 @@ func c12Checkpoint(run *ev.Run, chain *allChain, seed string) {
 		}
 		iso["bank"] = isolateBank(a, secs, keep)
 		c12Import(run, chain, seed, importMode{Name: "as-is-isolated", Only: m}, iso, secs, exp.Height, ctxA)
+		if m == "random" {
+			// the random section on its own as well: its import does not consult the service module, and the service
+			// section it otherwise travels with is refused as-is whenever a request context is in flight (listed finding),
+			// which would leave the as-is import of pending random requests unjudged
+			alone := map[string]json.RawMessage{}
+			for k, v := range iso {
+				alone[k] = v
+			}
+			alone["service"] = def["service"]
+			alone["bank"] = isolateBank(a, secs, map[string]bool{m: true})
+			c12Import(run, chain, seed, importMode{Name: "as-is-alone", Only: m}, alone, secs, exp.Height, ctxA)
+		}
 	}
 	// (3) zero-height: the modules' own preparation steps, then the application's zero-height export.
 	// They run on the check-state branch (reset at the next Commit), exactly where the application's export runs.
